@@ -25,6 +25,7 @@ structure WF (c : Cfg) : Prop where
   nt : c.nw ≤ c.nt
   b : c.hasB = true → c.nw < c.nt
   cur : c.curNullOk = true
+  aw : c.awHandleFirst = true
 
 /-- every state some schedule can produce -/
 def Reachable (c : Cfg) (s : State) : Prop := ∃ sched, s = run c (init c) sched
@@ -45,7 +46,7 @@ def Cancellable (c : Cfg) (k : Kind) : Prop := dropKind c k ≠ DropAct.nothing
 
 theorem reachable_inv {c : Cfg} (hc : WF c) {s : State} (h : Reachable c s) : Inv c s := by
   obtain ⟨sched, rfl⟩ := h
-  exact inv_run sched (inv_init c hc.out hc.nw hc.nt hc.b hc.cur)
+  exact inv_run sched (inv_init c hc.out hc.nw hc.nt hc.b hc.cur hc.aw)
 
 /-- in a stuck state nobody is blocked on the pool mutex: its holder (a worker at the head of its loop) could move; so
 every thread is disabled for a reason of its own program counter -/
@@ -474,6 +475,15 @@ theorem c11_workers_stay {c : Cfg} (hc : WF c) {s : State} (h : Reachable c s) (
   | true => rfl
   | false => have := hi.z_cur w hw hcur; rw [hn.2.2.2] at this; cases this
 
+/-- **`co_await pool(awaitable)` publishes the coroutine before it can be woken.** In every reachable state an awaiter that
+is registered on the awaited operation already carries the coroutine handle (`set_handle` precedes the registration in
+`enqueue_awaiter::await_suspend`): a resolution arriving at *any* later point — from any thread, at the very next
+scheduling point — hands the coroutine to the pool as a unit of work; it can never meet the default resume function and
+drop the coroutine. -/
+theorem c11_aw_handle_published {c : Cfg} (hc : WF c) {s : State} (h : Reachable c s) (n : Nat)
+    (hr : s.slotReg n = true) : s.slotHandle n = true :=
+  (reachable_inv hc h).a_handle n hr
+
 /-- **The destructor leaves no worker behind.** When the destructor has completed and no other `stop()` is still
 walking a thread list (destroying the pool while another thread is inside `stop()` is a caller error), every worker is
 finished or is a self-detached worker that no longer touches the pool. -/
@@ -564,10 +574,34 @@ theorem c11_fixed_current_null :
     s.pc 1 = Pc.done ∧ s.nextJob = 1 ∧ s.ran 0 = 1 := by
   decide
 
+/-- two clients: one parks a coroutine in `co_await pool(awaitable)` (slot 0), the other resolves the operation as soon as
+the awaiter is registered (`flag 10` is the harness's "registered" signal) -/
+def cfgAw (first : Bool) : Cfg :=
+  { nw := 1, nt := 3, awHandleFirst := first,
+    script := fun t => if t = 1 then [Act.park 0 []] else [Act.wait 10, Act.resolveNow 0] }
+
+/-- resolver blocks, the coroutine registers (one step), the resolver resolves at once, then everybody runs on -/
+def schedAwRace : List (Nat × Nat) :=
+  [(2, 0), (1, 0)] ++ List.replicate 8 (2, 0) ++ List.replicate 8 (1, 0) ++ List.replicate 20 (0, 0)
+
+/-- The seeded reordering (`awHandleFirst = false`: register first, store the handle afterwards): a resolution in the
+window finds no handle, nothing is submitted, the coroutine is neither executed nor cancelled although nobody stopped the
+pool (replayed on the patched header: corpus/c11_aw_race.txt). -/
+theorem c11_asis_aw_handle_late :
+    let s := run (cfgAw false) (init (cfgAw false)) schedAwRace
+    (∀ t, t < 3 → enabled s t = false) ∧ s.exit = false ∧ s.nextJob = 1 ∧ s.ran 0 = 0 ∧ s.cancelled 0 = 0 ∧ s.lost 0 = 1 ∧ s.q = [] := by
+  decide
+
+/-- the code as it is, same schedule: the coroutine is handed to the pool by the resolver and runs on the worker -/
+theorem c11_aw_race_runs :
+    let s := run (cfgAw true) (init (cfgAw true)) schedAwRace
+    (∀ t, t < 3 → enabled s t = false) ∧ s.exit = false ∧ s.nextJob = 1 ∧ s.ran 0 = 1 ∧ s.ranOn 0 = some 0 ∧ s.owner 0 = 2 := by
+  decide
+
 /-! ## Non-vacuity: the hypotheses are met by non-trivial reachable states -/
 
 example : WF (cfg1 [Act.submit Kind.co [] false, Act.submit Kind.fn [Prim.stop] false, Act.submit Kind.det [] false] true true) :=
-  ⟨rfl, by decide, by decide, by decide, rfl⟩
+  ⟨rfl, by decide, by decide, by decide, rfl, rfl⟩
 
 /-- a job stops the pool from its worker (self-detach) while two more submissions are queued: quiescent, all done, one
 ran, two cancelled -/
